@@ -200,10 +200,7 @@ func TestEjectionCap(t *testing.T) {
 // TestRecycleKeepsRecoveredNode (thorough only; real timers): a node that failed, then completed a request
 // successfully, is still known after the recycle interval.
 func TestRecycleKeepsRecoveredNode(t *testing.T) {
-	if !hx.Thorough() {
-		t.Skip("thorough tier only (waits for real timers)")
-	}
-	hx.Check(t, hx.N{Quick: 1, Thorough: 2}, func(t *rapid.T, c *hx.Case) {
+	hx.Check(t, hx.N{Quick: 2, Thorough: 4}, func(t *rapid.T, c *hx.Case) {
 		res := fmt.Sprintf("rec-%d", atomic.AddInt64(&caseNo, 1))
 		hx.Reset(hx.Epoch)
 		rule := &outlier.Rule{Rule: &cb.Rule{Id: res, Resource: res, Strategy: cb.ErrorCount, RetryTimeoutMs: 10, MinRequestAmount: 1, StatIntervalMs: 1000, Threshold: 1},
@@ -228,6 +225,16 @@ func TestRecycleKeepsRecoveredNode(t *testing.T) {
 		hx.C.AddMs(5)
 		call("n0", true) // this request sees the open breakers: outliers are handed to the recycler
 		time.Sleep(100 * time.Millisecond)
+		reloaded := rapid.Bool().Draw(t, "ruleReloadedMeanwhile")
+		if reloaded { // the rule is reloaded with another breaker threshold while the ejected nodes wait in the recycler
+			r2 := *rule
+			inner := *rule.Rule
+			inner.Threshold = 2
+			r2.Rule = &inner
+			if _, err := outlier.LoadRuleOfResource(res, &r2); err != nil {
+				t.Fatal(err)
+			}
+		}
 		hx.C.AddMs(20) // retry timeout elapsed: probes allowed
 		for i := 0; i < nn; i++ {
 			if rapid.Bool().Draw(t, "recovers") {
@@ -236,7 +243,7 @@ func TestRecycleKeepsRecoveredNode(t *testing.T) {
 				recovered[addr] = true
 			}
 		}
-		c.Op("nodes=%d recovered=%v", nn, recovered)
+		c.Op("nodes=%d rule reloaded meanwhile=%v recovered=%v", nn, reloaded, recovered)
 		time.Sleep(1500 * time.Millisecond)
 		known := map[string]bool{}
 		for _, a := range outlier.VerifNodeAddresses(res) {
